@@ -24,7 +24,8 @@ LIB = lib_errors()
 
 CLOSED, WCA, WICEA, OPEN, CLOSING, WRET, WELECT = "Closed", "Wait-Conn-Ack", "Wait-I-CEA", "Open", "Closing", "Wait-Returns", "Wait-Conn-Ack/Elect"
 KINDS = ["cer_ok", "cer_wrong_host", "cer_wrong_realm", "cer_missing_avp", "cer_wrong_flags", "cea_ok", "cea_wrong_host",
-         "dwr_ok", "dwr_wrong_host", "dwa_ok", "dwa_bad", "dpr_ok", "dpr_other_cause", "dpa", "app_req", "app_req_misaddressed", "app_ans"]
+         "dwr_ok", "dwr_wrong_host", "dwa_ok", "dwa_bad", "dpr_ok", "dpr_other_cause", "dpa", "app_req", "app_req_misaddressed", "app_ans",
+         "cer_wrong_host_2ip", "cea_wrong_host_2ip"]
 
 
 def _msg(flags, cmd, app, avps):
@@ -39,6 +40,12 @@ def build(kind):
         return _msg(0x80, 257, 0, [oh, orr] + ce)
     if kind == "cer_wrong_host":
         return _msg(0x80, 257, 0, [OriginHostAVP("evil.host"), orr] + ce)
+    if kind == "cer_wrong_host_2ip":             # RFC 6733: 1* { Host-IP-Address } - a second address is legal
+        return _msg(0x80, 257, 0, [OriginHostAVP("evil.host"), orr, HostIpAddressAVP("10.0.0.2"), HostIpAddressAVP("10.0.0.3")] + ce[1:])
+    if kind == "cea_wrong_host_2ip":
+        return _msg(0x00, 257, 0, [ResultCodeAVP(2001), OriginHostAVP("evil.host"), orr, HostIpAddressAVP("10.0.0.2"), HostIpAddressAVP("10.0.0.3")] + ce[1:])
+    if kind == "cer_ok_2ip":
+        return _msg(0x80, 257, 0, [oh, orr, HostIpAddressAVP("10.0.0.2"), HostIpAddressAVP("10.0.0.3")] + ce[1:])
     if kind == "cer_wrong_realm":
         return _msg(0x80, 257, 0, [oh, OriginRealmAVP("evil.realm")] + ce)
     if kind == "cer_missing_avp":
@@ -90,7 +97,7 @@ def reference(role, state, active, peer_gone, ack, idle_fire, has_send, kind):
     if state == WICEA:
         if peer_gone:
             return CLOSED, E, False        # "a peer disconnect ... closes it": also while awaiting the CEA
-        if kind is None or kind == "cea_wrong_host":
+        if kind is None or kind in ("cea_wrong_host", "cea_wrong_host_2ip"):
             return WICEA, E, False
         if kind == "cea_ok":
             return OPEN, E, False
